@@ -235,6 +235,9 @@ def run(R, tier):
     R.count("variants_round_tripped", n_var)
     R.floor("R20.4", "variants", n_var, 19)
 
+    # ---- R20.6 typed echo tables: a derived enum as parameter and answer, end to end -------------------------------------------------
+    from . import echotable as ET
+    ET.check(R, "R20.6", "enums", tier, "`*MODE? <mnemonic>` through Node::run on the echo witness (derive(ScpiEnum) on a five-variant enum with suffixed siblings): short / long form in any case, the default-1 suffix rule, leading-zero and foreign suffixes, partial long forms, one letter more or less - the answer is the selected variant's own mnemonic or -224; other element types -104", 90)
 
 def _flat(t):
     out = []
